@@ -995,6 +995,12 @@ def serialize_val(
         )
     if isinstance(field_definition, (Number, Boolean, String)) or val is None:
         return str(val) if isinstance(val, Decimal) else val
+    if (
+        isinstance(field_definition, TypedField)
+        and getattr(field_definition, "_ty", "") in {str, int, float}
+        and isinstance(val, getattr(field_definition, "_ty", ""))
+    ):
+        return val
     if isinstance(field_definition, Anything) and (
         isinstance(val, (int, float, str, bool)) or val is None
     ):
